@@ -285,6 +285,13 @@ func randPlan(r *mrand.Rand, big bool) persoPlan {
 	if pp.maxLe < needLe {
 		pp.maxLe = 256
 	}
+	if pp.maxLe < 12 {
+		// the reader gives up after 1000 reads per file: a security object of a few KiB
+		// (RSA-4096 signer certificate) is out of reach of a smaller per-read size, which is
+		// then not a transport that supports the file (C08's condition); the tiny sizes 1..8
+		// have their own directed cases on a small chip
+		pp.maxLe = 12
+	}
 	switch r.IntN(6) {
 	case 0:
 		pp.chipCap = []int{16, 50, 100, 223, 231, 255, 256, 1024}[r.IntN(8)]
